@@ -98,6 +98,7 @@ type Cluster struct {
 	connSeq   int64
 	closed    bool
 	live      map[int64]*nodeConn
+	acceptCl  map[int]bool // nodes that close every connection right after accepting it
 }
 
 // Node is one listening fake Redis node.
@@ -149,6 +150,16 @@ func (c *Cluster) SetHandler(h Handler) {
 	}
 	c.mu.Lock()
 	c.handler = h
+	c.mu.Unlock()
+}
+
+// SetAcceptClose makes node close every new connection right after accepting it (on = false restores it).
+func (c *Cluster) SetAcceptClose(node int, on bool) {
+	c.mu.Lock()
+	if c.acceptCl == nil {
+		c.acceptCl = map[int]bool{}
+	}
+	c.acceptCl[node] = on
 	c.mu.Unlock()
 }
 
@@ -321,6 +332,13 @@ func (n *Node) acceptLoop() {
 			c.mu.Unlock()
 			conn.Close()
 			return
+		}
+		if c.acceptCl[n.Index] {
+			c.connSeq++
+			c.conns[c.connSeq] = &ConnInfo{ID: c.connSeq, Node: n.Index, Opened: time.Now(), Closed: true, Events: []string{"!closed-on-accept"}}
+			c.mu.Unlock()
+			conn.Close()
+			continue
 		}
 		c.connSeq++
 		nc := &nodeConn{id: c.connSeq, node: n, nc: conn, qsig: make(chan struct{}, 1), done: make(chan struct{})}
